@@ -17,6 +17,10 @@ type Ev struct {
 	Cid int    // copy id (-1: not a pushed copy)
 	Eid uint64 // event id as a number
 	Sz  int
+	// C15: position in the script and a hook observing Lamport() reads
+	Batch, Pos int
+	Bad        bool
+	OnLamport  func(*Ev)
 }
 
 // ID maps an event number to a 32-byte id: epoch 1, lamport in the usual place, the number in
@@ -46,5 +50,11 @@ func New(cid int, eid uint64, parents []uint64, size int, lamport uint32) *Ev {
 func (e *Ev) ID() hash.Event { return ID(e.Eid) }
 func (e *Ev) Size() int      { return e.Sz }
 func (e *Ev) String() string { return "ev" }
+func (e *Ev) Lamport() idx.Lamport {
+	if e.OnLamport != nil {
+		e.OnLamport(e)
+	}
+	return e.MutableBaseEvent.Lamport()
+}
 
 var _ dag.Event = (*Ev)(nil)
